@@ -15,8 +15,8 @@
 //            CheckValidity, PrintInfo, VerifyData against the seed key), SignaturesParse
 //   message: MessageParse, PKESK decryption with the seed private key, Message::Decrypt, nested MessageParse, CheckMDC
 // Mutations (binary): at every offset of every packet header and of the first 64 body bytes of every packet (thorough:
-//   every offset of artefacts <= 8 KiB): truncate here, flip bit 0, flip bit 7, set 0x00 / 0x7f / 0xff, +1, -1, delete byte,
-//   duplicate byte; per packet: delete, duplicate, swap with next, and the length field rewritten to 0, 1, len-1, len+1,
+//   every offset of artefacts <= 8 KiB): truncate here, flip bit 0, flip bit 7, set 0x00 / 0xff (thorough: also 0x7f, +1, -1,
+//   delete byte, duplicate byte); per packet: delete, duplicate, swap with next, and the length field rewritten to 0, 1, len-1, len+1,
 //   191/192, 8383/8384, 2^16-1, 2^31, 2^32-1 in one-, two-, five-octet and partial-length encodings.
 //   Armored text: byte catalogue (truncate, flip bit 0/7) at every offset + line level delete/duplicate/empty.
 // Oracle: outcome in {refused, accepted, std::exception}; anything else is a violation (see c12_common.hh).
@@ -353,6 +353,7 @@ static void add_bin(const std::string &name, const std::string &seedname, const 
 	PTarget p;
 	p.binary = true;
 	p.t.name = name, p.t.seedname = seedname, p.t.seed = seed, p.t.run = run, p.t.expect_accept = expect;
+	p.t.keyname = "openpgp";    // the crash sites are inside the shared packet decoder: key by site, not by entry point
 	p.t.mode = Target::BINARY;
 	p.t.cat.thorough = thorough;
 	std::vector<Pkt> P = packets(seed);
@@ -369,6 +370,7 @@ static void add_txt(const std::string &name, const std::string &seedname, const 
 	PTarget p;
 	p.binary = false;
 	p.t.name = name, p.t.seedname = seedname, p.t.seed = seed, p.t.run = run, p.t.expect_accept = expect;
+	p.t.keyname = "openpgp";
 	p.t.mode = Target::TEXT;
 	p.t.delims = "\n";
 	p.t.cat.thorough = thorough;
